@@ -22,6 +22,11 @@ def suite():
 
 def main():
     pid = sys.argv[1]
+    also = []
+    for a in list(sys.argv[2:]):
+        if a.startswith("--also="):
+            also = a[7:].split(",")
+            sys.argv.remove(a)
     ks = sys.argv[2:] or sorted(k for k in os.listdir(f"{SRC}/{pid}") if os.path.isdir(f"{SRC}/{pid}/{k}") and os.path.exists(f"{SRC}/{pid}/{k}/patch.diff"))
     for k in ks:
         d = f"{SRC}/{pid}/{k}"
@@ -35,6 +40,12 @@ def main():
             demo1 = sh(f"cd /repo && /venv/bin/python {d}/demo.py", timeout=900)
             npass, tail = suite()
             chk = sh(f"cd {ROOT} && ./check {pid} --tier quick", timeout=3600)
+            others = {}
+            for o in also:
+                r_ = sh(f"cd {ROOT} && ./check {o} --tier quick", timeout=3600)
+                others[o] = {"exit": r_.returncode, "first_violation": next((l[:300] for l in r_.stdout.splitlines() if l.startswith("VIOLATION")), None),
+                             "last": (r_.stdout + r_.stderr).strip().splitlines()[-1][:300] if (r_.stdout + r_.stderr).strip() else ""}
+                shutil.rmtree(f"{ROOT}/replays/{o}", ignore_errors=True)
         finally:
             sh("git -C /repo checkout -- .")
         nviol = len([l for l in chk.stdout.splitlines() if l.startswith("VIOLATION")])
@@ -49,8 +60,10 @@ def main():
                     f"./check {pid} --tier quick with patch"]},
             "check_result": {"exit": chk.returncode, "violation_lines": nviol,
                              "first_violation": next((l[:300] for l in chk.stdout.splitlines() if l.startswith("VIOLATION")), None)}})
+        if others:
+            meta["other_checks"] = others
         json.dump(meta, open(f"{out}/meta.json", "w"), indent=1)
-        print(f"{pid}-{k}: confirmed={confirmed} (demo {demo0.returncode}->{demo1.returncode}, suite {npass}) check exit={chk.returncode} violations={nviol}")
+        print(f"{pid}-{k}: confirmed={confirmed} (demo {demo0.returncode}->{demo1.returncode}, suite {npass}) check exit={chk.returncode} violations={nviol}" + "".join(f" | {o}: exit={v['exit']}" for o, v in others.items()))
         shutil.rmtree(f"{ROOT}/replays/{pid}", ignore_errors=True)
 
 
